@@ -622,6 +622,73 @@ func c12(r *core.Report) {
 					}
 					return 1
 				})
+				// a check-or-insert helper: g(c) (*Conn, bool) that stores c in the table on every path on which the
+				// bool it returns is false. At the call, the false edge of that bool counts as registered.
+				registersUnlessTrue := func(g *ssa.Function, argIdx int) bool {
+					if g == nil || g.Blocks == nil || g.Signature.Results().Len() != 2 || argIdx >= len(g.Params) {
+						return false
+					}
+					var flag ssa.Value
+					for _, ret := range core.Returns(g) {
+						vs := core.ReturnValues(ret, 1)
+						if len(vs) != 1 || (flag != nil && vs[0] != flag) {
+							return false
+						}
+						flag = vs[0]
+					}
+					if flag == nil {
+						return false
+					}
+					assumeFalse := core.CutWhere(func(cond ssa.Value) int {
+						if cond == flag {
+							return 1 // cut the edge on which the flag is true
+						}
+						return 0
+					})
+					isReg := func(in ssa.Instruction) bool {
+						mu, ok := in.(*ssa.MapUpdate)
+						if !ok {
+							return false
+						}
+						f, _ := core.FieldRead(mu.Map)
+						return core.SameField(f, connsF) && core.Through(mu.Value) == ssa.Value(g.Params[argIdx])
+					}
+					unreg := core.Reach(g, nil, assumeFalse, isReg)
+					for _, ret := range core.Returns(g) {
+						if unreg[ret] {
+							return false
+						}
+					}
+					return core.GuardEdges(g, assumeFalse) > 0
+				}
+				var helperFlags []ssa.Value // bool results whose false edge means "registered"
+				for _, in := range core.AllInstrs(getConn) {
+					hc, ok := in.(*ssa.Call)
+					if !ok {
+						continue
+					}
+					g := core.StaticCallee(hc.Common())
+					if g == nil || !p.InModule(g) {
+						continue
+					}
+					for ai, a := range hc.Call.Args {
+						if isConn(a) && registersUnlessTrue(g, ai) {
+							for _, ref := range *hc.Referrers() {
+								if ex, isEx := ref.(*ssa.Extract); isEx && ex.Index == 1 {
+									helperFlags = append(helperFlags, ex)
+								}
+							}
+						}
+					}
+				}
+				registeredEdge := core.CutWhere(func(cond ssa.Value) int {
+					for _, hf := range helperFlags {
+						if cond == hf {
+							return -1 // the flag is false on the false edge: registered there, cut it
+						}
+					}
+					return 0
+				})
 				// branch conditions tested more than once (`if !exists {register}; unlock; if exists {close}`)
 				// are decided once per path: enumerate the truth value of each such condition
 				condUses := map[ssa.Value]int{}
@@ -650,7 +717,7 @@ func c12(r *core.Report) {
 						}
 						return 0
 					})
-					both := func(b *ssa.BasicBlock, i int) bool { return errNonNil(b, i) || assume(b, i) }
+					both := func(b *ssa.BasicBlock, i int) bool { return errNonNil(b, i) || assume(b, i) || registeredEdge(b, i) }
 					reached := core.Reach(getConn, call, both, settled)
 					for _, ret := range core.Returns(getConn) {
 						if reached[ret] {
